@@ -686,6 +686,283 @@ def _traces(chk: Check, per_flag: int, n_mut: int, n_empty: int):
 
 
 # ------------------------------------------------------------------------------------------
+# B1: histories (CompressedObj_Hist.tla) - a decoder is a function of the payload only
+# ------------------------------------------------------------------------------------------
+
+def _hist_cfg(spec, payloads, maxres, checks=True):
+    return ("SPECIFICATION %s\nCONSTANTS\n FlagWords = {0}\n HighBits = {0}\n PCodes = {9}\n Variants = {1}\n Product = FALSE\n"
+            " HPayloads <- %s\n MaxRes = %d\n" % (spec, payloads, maxres)
+            + ("INVARIANT HTypeOK\nINVARIANT HPayloadsOK\nPROPERTY OneAtATime\n" if checks else ""))
+
+
+def _unwrap(v):
+    return v.__wrapped__ if type(v).__name__ == "Proxy" else v
+
+
+def _is_leaf(v):
+    import enum
+    import types
+    return (v is None or isinstance(v, (int, float, str, bytes, bool, _uuid.UUID, enum.Enum, type, types.ModuleType,
+                                        types.FunctionType, types.BuiltinFunctionType, types.MethodType, memoryview, frozenset,
+                                        classmethod, staticmethod, property)))
+
+
+def _children(v):
+    """(kind, [(key, child)]) of one mutable node; kind None for leaves / immutable values."""
+    v = _unwrap(v)
+    if _is_leaf(v):
+        return None, []
+    if isinstance(v, dict):
+        return "dict", list(v.items())
+    if isinstance(v, bytearray):
+        return "bytearray", []
+    if isinstance(v, list):
+        return "list", list(enumerate(v))
+    if isinstance(v, set):
+        return "set", [(None, x) for x in v]
+    if isinstance(v, tuple) and not hasattr(v, "__fields__"):
+        return "tuple", list(enumerate(v))     # immutable itself, but may hold mutable things
+    fields = getattr(type(v), "__fields__", None)
+    if fields and all(isinstance(f, str) for f in fields):
+        return "record", [(f, getattr(v, f)) for f in fields]
+    d = getattr(v, "__dict__", None)
+    if isinstance(d, dict):
+        return "object", list(d.items())
+    return None, []
+
+
+def _perturb(x):
+    if isinstance(x, bool):
+        return not x
+    if isinstance(x, int):
+        return int(x) + 1
+    if isinstance(x, float):
+        return x + 1.0
+    if isinstance(x, str):
+        return x + "x"
+    if isinstance(x, bytes):
+        return x + b"x"
+    return "verif-edited"
+
+
+def mutate_in_place(v, seen=None):
+    """Edit every mutable part reachable from v, in place (what a client that owns a result may do)."""
+    seen = set() if seen is None else seen
+    v = _unwrap(v)
+    kind, ch = _children(v)
+    if kind is None or id(v) in seen:
+        return
+    seen.add(id(v))
+    for _, c in ch:
+        mutate_in_place(c, seen)
+    try:
+        if kind == "dict":
+            for k, c in ch:
+                if _children(c)[0] is None:
+                    v[k] = _perturb(c)
+            v["verif-added-key"] = "verif-added-value"
+        elif kind == "list" or kind == "bytearray":
+            if kind == "bytearray":
+                v.append(1)
+            else:
+                for k, c in ch:
+                    if _children(c)[0] is None:
+                        v[k] = _perturb(c)
+                v.append("verif-added-item")
+        elif kind == "set":
+            v.add("verif-added-item")
+        elif kind in ("record", "object"):
+            for k, c in ch:
+                if _children(c)[0] is None:
+                    try:
+                        setattr(v, k, _perturb(c))
+                    except Exception:
+                        pass
+    except Exception:
+        pass
+
+
+def _mutable_ids(v, acc, seen=None, depth=0):
+    """ids of all mutable nodes reachable from v (objects a client could edit in place)."""
+    seen = set() if seen is None else seen
+    v = _unwrap(v)
+    kind, ch = _children(v)
+    if kind is None or id(v) in seen or depth > 12:
+        return
+    seen.add(id(v))
+    if kind != "tuple":
+        acc[id(v)] = type(v).__name__
+    for _, c in ch:
+        _mutable_ids(c, acc, seen, depth + 1)
+
+
+def _static_ids(I):
+    """mutable objects reachable from module / class level state of the anchored modules."""
+    import sys as _sys
+    acc = {}
+    roots = []
+    for mn in ("hippolyzer.lib.base.objects", "hippolyzer.lib.base.templates", "hippolyzer.lib.base.serialization",
+               "hippolyzer.lib.base.namevalue", "hippolyzer.lib.base.datatypes"):
+        m = _sys.modules.get(mn)
+        if m is None:
+            continue
+        for name, val in list(vars(m).items()):
+            roots.append(val)
+            if isinstance(val, type) and getattr(val, "__module__", "") == mn:
+                roots.extend(v for v in vars(val).values())
+    seen = set()
+    for r in roots:
+        if isinstance(r, type):
+            continue
+        _mutable_ids(r, acc, seen)
+    return acc
+
+
+_H = None     # (graph, rows, names) shared with forked workers
+
+
+def _check_result(I, names, row, res, clean, who, bad, cap=4):
+    """every field in `clean` of one decoded result against TLC's row of its payload."""
+    has, b = _project(I, names, res)
+    for f in row["f"]:
+        n = f["name"]
+        if n not in clean:
+            continue
+        exp = [] if not f["val"] else [row["state"]] if n == "State" else row["p"][f["off"]:f["off"] + f["len"]]
+        if (n in has) != f["val"] or b[n] != exp:
+            if len(bad) < cap:
+                bad.append((who, n, {"spec": exp[:40], "impl": b[n][:40], "impl_has_value": n in has}))
+    extra = sorted(set(res) - set(names)) if "__all__" in clean else []
+    if extra and len(bad) < cap:
+        bad.append((who, "<keys>", {"unexpected keys": extra}))
+
+
+def _hist_replay_chunk(edge_ids):
+    g, rows, names = _H
+    I = impl()
+    out = []
+    static = _static_ids(I)
+    dec = {"fast": I.fast_des, "tmpl": I.tmpl_des}
+    n_obs = 0
+    eff, tot = {}, {}
+    for ei in edge_ids:
+        e = g.edges[ei]
+        hist = [pe["act"] for pe in g.path_to(e["_s"])] + [e["act"]]
+        held = []
+        bad = []
+        for a in hist:
+            if a["n"] == "Decode":
+                st, r = impl_call(dec[a["d"]], bytes(rows[a["k"] - 1]["p"]))
+                if st != "ok" or not isinstance(r, dict):
+                    bad.append(("decode-raised", a["d"], {"exc": r if st != "ok" else "not a dict", "payload": a["k"]}))
+                    r = {}
+                held.append(r)
+            elif a["n"] == "Mutate":
+                mutate_in_place(held[a["i"] - 1].get(a["f"]))
+            else:
+                r = held[a["i"] - 1]
+                for n in list(r):
+                    mutate_in_place(r[n])
+                    if _children(r[n])[0] is None:
+                        r[n] = _perturb(r[n])
+                r["verif-added-key"] = "verif-added-value"
+        # vacuity guard: the edit of the last step must be visible in the edited field itself
+        la = e["act"]
+        if la["n"] == "Mutate" and not bad:
+            tmp = []
+            _check_result(I, names, rows[e["obs"][la["i"] - 1]["k"] - 1], held[la["i"] - 1], {la["f"]}, "x", tmp)
+            eff[la["f"]] = eff.get(la["f"], 0) + (1 if tmp else 0)
+            tot[la["f"]] = tot.get(la["f"], 0) + 1
+        # observation of the target state
+        all_names = set(names) | {"__all__"}
+        for i, o in enumerate(e["obs"]):
+            _check_result(I, names, rows[o["k"] - 1], held[i], set(o["clean"]) | ({"__all__"} if len(o["clean"]) == len(names) else set()),
+                          "held-result-changed:%s" % o["d"], bad)
+        fresh = []
+        for k, row in enumerate(rows):
+            for d in ("fast", "tmpl"):
+                st, r = impl_call(dec[d], bytes(row["p"]))
+                n_obs += 1
+                if st != "ok" or not isinstance(r, dict):
+                    bad.append(("fresh-decode-differs:%s" % d, "<raised>", {"exc": r, "payload": k + 1}))
+                    continue
+                _check_result(I, names, row, r, all_names, "fresh-decode-differs:%s" % d, bad)
+                st2, rb = impl_call(I.tmpl_ser, r)
+                if (st2 != "ok" or list(rb) != row["p"]) and len(bad) < 4:
+                    bad.append(("fresh-decode-reencode-differs:%s" % d, "<payload>", {"exc": rb if st2 != "ok" else "bytes differ", "payload": k + 1}))
+                fresh.append(("fresh %s #%d" % (d, k + 1), r))
+        # non-aliasing, observed directly: no mutable object shared between two results or with static state
+        owners = {}
+        for who, r in [("held #%d" % (i + 1), h) for i, h in enumerate(held)] + fresh:
+            ids = {}
+            _mutable_ids(r, ids)
+            for oid, tn in ids.items():
+                if oid in static and len(bad) < 4:
+                    bad.append(("aliasing:static", tn, {"result": who, "shared_with": "module/class level state"}))
+                elif oid in owners and owners[oid] != who and len(bad) < 4:
+                    bad.append(("aliasing:results", tn, {"result": who, "shared_with": owners[oid]}))
+                owners.setdefault(oid, who)
+        if bad:
+            out.append((ei, hist, bad))
+            if len(out) >= 3:      # process-level state may be polluted from here on: stop this chunk
+                break
+    return out, n_obs, eff, tot
+
+
+def _history(chk: Check, payloads: str, maxres: int):
+    """B1: every edge of the bounded history graph replayed (from the initial state, in forked workers) with the
+    full observation: held results, fresh decodes of every payload by both decoders, re-encoding, aliasing."""
+    global _H
+    label = "histories %s x%d" % (payloads, maxres)
+    common.model_check(chk, "CompressedObj_Hist", _hist_cfg("HSpec", payloads, maxres), label, workers=2, heap="2g")
+    recs = common.export_records(chk, "CompressedObj_Hist", _hist_cfg("MHSpec", payloads, maxres, False), label, heap="2g")
+    init = [r for r in recs if isinstance(r, dict) and "init" in r]
+    if not init:
+        raise common.MachineryError("CompressedObj_Hist printed no init record")
+    rows = init[0]["rows"]
+    names = [f["name"] for f in rows[0]["f"]]
+    g = common.Graph(recs)
+    edges = g.reachable_edges()
+    if len(edges) < 100:
+        raise common.MachineryError("history graph has only %d edges" % len(edges))
+    _H = (g, rows, names)
+    # interleave so that every worker sees short and long histories; workers are forked: the parent process stays clean
+    chunks = [edges[i::8] for i in range(8)]
+    results = common.parallel_map(_hist_replay_chunk, chunks, procs=8)
+    known = impl().known_pcodes
+    n_fresh = 0
+    eff, tot = {}, {}
+    for out, n_obs, e1, t1 in results:
+        n_fresh += n_obs
+        for k, v in e1.items():
+            eff[k] = eff.get(k, 0) + v
+        for k, v in t1.items():
+            tot[k] = tot.get(k, 0) + v
+        for ei, hist, bad in out:
+            clause, field, detail = bad[0]
+            kind = clause.split(":")[0]
+            _viol(chk, "B1 history: %s (%s)" % (clause, field),
+                  {"kind": "history", "clause": kind, "decoder": clause.split(":")[1] if ":" in clause else "", "field": field},
+                  {"history": hist, "first": detail, "all": [(c, f) for c, f, _ in bad], "payloads": [
+                      {"flags": r["flags"], "pcode": r["pcode"], "variant": r["variant"], "hex": bytes(r["p"]).hex()} for r in rows]})
+    for ei in edges:
+        a = g.edges[ei]["act"]
+        if a["n"] != "Decode":
+            chk.nontrivial(("hist-edge", ei))
+    dead = sorted(k for k in tot if not eff.get(k))
+    if dead and not chk.violations:
+        raise common.MachineryError("in-place edits of %s were never visible in the edited result: the walker is blind there" % dead)
+    chk.notes.append("history edges %d; in-place edits visible in the edited field: %s" % (
+        len(edges), ", ".join("%s %d/%d" % (k, eff.get(k, 0), tot[k]) for k in sorted(tot))))
+    chk.cov["traces_validated_against_impl"] += len(edges)
+    chk.count(len(edges) + n_fresh)
+    e = g.edges[edges[len(edges) // 2]]
+    chk.sample({"binding": "B1 history edge", "history": [pe["act"] for pe in g.path_to(e["_s"])] + [e["act"]],
+                "obs": [{"d": o["d"], "payload": o["k"], "fields_still_clean": len(o["clean"])} for o in e["obs"]]})
+    _H = None
+
+
+# ------------------------------------------------------------------------------------------
 
 def run(chk: Check):
     I = impl()
@@ -733,6 +1010,7 @@ def run(chk: Check):
         _traces(chk, 1 if quick else 4, 1500 if quick else 12000, 120 if quick else 1200)
         for lab, res in fut.result():
             chk.require_model_ok(res, "CompressedObj " + lab)
+    _history(chk, "HPQuick" if quick else "HPThorough", 2)      # forks workers: only once no other thread is running
     extra = {k: n - 3 for k, n in _SEEN.items() if n > 3}
     if extra:
         chk.notes.append("further failing cases not recorded individually: %s" % extra)
